@@ -55,6 +55,8 @@ class Run(object):
         self.accepted = 0
         self.rejected = 0
 
+    keys_not_registered = 0
+
     def feed(self, row):
         """-> None (header row) | ("row", row) | ("rej", info)"""
         self.row_number += 1
@@ -81,14 +83,21 @@ class Run(object):
             if verdict == "reject":
                 return {"row": number, "column": column, "field": decl["name"], "class": "FieldValueError", "reason": detail}
         values = dict(zip(self.names, row))
+        # IsUnique speaks of earlier *accepted* rows: keys are registered only once every check has passed the row.
+        # DistinctCount speaks of the rows that reached the check: a value counts as soon as the check has seen the row.
+        pending = []
         for check in self.checks:
             if check[0] == "IsUnique":
                 key = tuple(values[name] for name in check[2])
                 if key in check[3]:
+                    if pending:
+                        self.keys_not_registered += 1  # an earlier-declared IsUnique check has passed this rejected row
                     return {"row": number, "column": 0, "field": None, "class": "CheckError", "reason": "duplicate", "see_row": check[3][key], "check": check[1]}
-                check[3][key] = number
+                pending.append((check[3], key))
             else:
                 check[3].add(values[check[2][0]])
+        for seen, key in pending:
+            seen[key] = number
         return None
 
     def close(self):
